@@ -670,6 +670,106 @@ Proof.
   unfold wall_offset, offset_at. rewrite Ht. cbn [wall_offset_go offset_at_go]. lia.
 Qed.
 
+(* a well-formed transition table: instants ascending, and the next transition not before the
+   end of the wall-clock gap a forward jump opens (T' >= T + (o - cur)) *)
+Fixpoint zone_wf_go (cur : Z) (tr : list (Z * Z)) : bool :=
+  match tr with
+  | [] => true
+  | (T, o) :: rest =>
+    match rest with
+    | [] => true
+    | (T', _) :: _ => (T <=? T') && (T + (o - cur) <=? T')
+    end && zone_wf_go o rest
+  end.
+Definition head_ge (T0 : Z) (tr : list (Z * Z)) : Prop :=
+  match tr with [] => True | (T, _) :: _ => T0 <= T end.
+
+Lemma wf_head c T o rest : zone_wf_go c ((T, o) :: rest) = true ->
+  head_ge T rest /\ head_ge (T + (o - c)) rest /\ zone_wf_go o rest = true.
+Proof.
+  cbn [zone_wf_go]. destruct rest as [|[T' o'] rest']; cbn [head_ge]; intros H; [tauto|].
+  apply andb_true_iff in H. destruct H as [H1 H2]. split; [lia|]. split; [lia|exact H2].
+Qed.
+
+(* the instant a wall-clock reading denotes is not before the last transition it is past *)
+Lemma wall_lb : forall tr c w T0,
+  zone_wf_go c tr = true -> head_ge T0 tr -> T0 + c <= w ->
+  T0 <= w - wall_offset_go c tr w false.
+Proof.
+  induction tr as [|[T o] rest IH]; intros c w T0 Hwf Hh Hw; cbn [wall_offset_go]; [lia|].
+  destruct (wf_head _ _ _ _ Hwf) as (Hh1 & _ & Hwf'). cbn [head_ge] in Hh.
+  destruct (T + Z.max c o <=? w) eqn:E; [|lia].
+  pose proof (IH o w T Hwf' Hh1 ltac:(lia)). lia.
+Qed.
+
+Lemma wall_lb2 c tr w : zone_wf_go c tr = true ->
+  wall_offset_go c tr w false = c \/
+  exists T o rest, tr = (T, o) :: rest /\ T <= w - wall_offset_go c tr w false.
+Proof.
+  intros Hwf. destruct tr as [|[T o] rest]; [left; reflexivity|].
+  destruct (wf_head _ _ _ _ Hwf) as (Hh1 & _ & Hwf'). cbn [wall_offset_go].
+  destruct (T + Z.max c o <=? w) eqn:E; [|left; reflexivity].
+  right. exists T, o, rest. split; [reflexivity|].
+  apply (wall_lb rest o w T Hwf' Hh1). lia.
+Qed.
+
+Lemma offset_at_stop o rest s :
+  (match rest with [] => True | (T', _) :: _ => s < T' end) -> offset_at_go o rest s = o.
+Proof.
+  destruct rest as [|[T' o'] rest']; [reflexivity|]. intros H. cbn [offset_at_go].
+  replace (T' <=? s) with false by lia. reflexivity.
+Qed.
+
+Lemma zone_pos_go : forall tr c ws dur, 0 < dur -> zone_wf_go c tr = true ->
+  wall_offset_go c tr ws false <= offset_at_go c tr (ws - wall_offset_go c tr ws false) /\
+  ws - wall_offset_go c tr ws false <
+  (ws - wall_offset_go c tr ws false + offset_at_go c tr (ws - wall_offset_go c tr ws false) + dur)
+  - wall_offset_go c tr (ws - wall_offset_go c tr ws false
+                         + offset_at_go c tr (ws - wall_offset_go c tr ws false) + dur) false.
+Proof.
+  induction tr as [|[T o] rest IH]; intros c ws dur Hdur Hwf.
+  { cbn [wall_offset_go offset_at_go]. lia. }
+  destruct (wf_head _ _ _ _ Hwf) as (Hh1 & Hh2 & Hwf').
+  cbn [wall_offset_go].
+  destruct (T + Z.max c o <=? ws) eqn:E1.
+  - (* past this transition on the wall clock *)
+    set (o3 := wall_offset_go o rest ws false).
+    pose proof (wall_lb rest o ws T Hwf' Hh1 ltac:(lia)) as Hs. fold o3 in Hs.
+    cbn [offset_at_go]. replace (T <=? ws - o3) with true by lia.
+    destruct (IH o ws dur Hdur Hwf') as [IH1 IH2]. fold o3 in IH1, IH2.
+    set (o2 := offset_at_go o rest (ws - o3)) in *.
+    replace (T + Z.max c o <=? ws - o3 + o2 + dur) with true by lia.
+    split; assumption.
+  - cbn [offset_at_go].
+    destruct (T <=? ws - c) eqn:E2.
+    + (* the reading is inside the gap of this transition *)
+      assert (Ho2 : offset_at_go o rest (ws - c) = o).
+      { apply offset_at_stop. destruct rest as [|[T' o'] rest']; [exact I|]. cbn [head_ge] in Hh2. lia. }
+      rewrite Ho2. replace (T + Z.max c o <=? ws - c + o + dur) with true by lia.
+      split; [lia|].
+      destruct (wall_lb2 o rest (ws - c + o + dur) Hwf') as [->|(T' & o' & rest' & -> & Hge)]; [lia|].
+      cbn [head_ge] in Hh2. lia.
+    + (* before it *)
+      split; [lia|].
+      destruct (T + Z.max c o <=? ws - c + c + dur) eqn:E3; [|lia].
+      pose proof (wall_lb rest o (ws - c + c + dur) T Hwf' Hh1 ltac:(lia)). lia.
+Qed.
+
+Definition zone_wf (z : zone) : bool := zone_wf_go (off0 z) (trans z).
+
+(* any well-formed zone table and a positive duration: adding the duration on the local clock
+   never ends at or before the start (the start is normalised out of a DST gap first — the repair
+   in _occurrence_to_interval; an ambiguous end reading takes the first of its two instants,
+   which is still after the start) *)
+Theorem occ_positive_wf r :
+  zone_wf (r_zone r) = true -> 0 < r_dur r -> occ_positive r.
+Proof.
+  intros Hwf Hd d. rewrite occ_fstart, occ_fend. cbv zeta.
+  unfold wall_offset, offset_at.
+  exact (proj2 (zone_pos_go (trans (r_zone r)) (off0 (r_zone r)) (mk_wall d (r_sod r)) (r_dur r) Hd Hwf)).
+Qed.
+Print Assumptions occ_positive_wf.
+
 (* any zone of bounded spread and a duration beyond the spread *)
 Lemma occ_positive_long r :
   zone_spread_ok (r_zone r) = true -> DAY / 2 < r_dur r -> occ_positive r.
